@@ -151,11 +151,16 @@ def run(ctx, rep):
         rep.ob('D-ref', e, ok, 'operation method %s does not take both operands by shared reference: %s' % (e, ins),
                loc=b.loc(b.j['line_lo']))
     for stage in ('boolean::boolean_operation', 'boolean::fill_queue::fill_queue', 'boolean::trivial_result'):
-        b = rep.anchor(ctx, stage)
+        # trivial_result is a helper of boolean_operation that need not exist; the two stages that receive the operands must
+        b = rep.anchor(ctx, stage) if not stage.endswith('trivial_result') else f.body(stage)
         if b:
             ins = b.j.get('sig_inputs', [])
-            ok = len(ins) >= 2 and all(t.startswith('&[geo_types::Polygon<') for t in ins[:2])
-            rep.ob('D-ref', stage, ok, '%s must take the operands as &[Polygon<F>], has %s' % (stage, ins[:2]),
+            # every parameter that carries polygons carries them behind shared references only (alone or inside a tuple)
+            carrying = [t for t in ins if re.search(r'geo_types::(Polygon|MultiPolygon|LineString)<', t)]
+            bad = [t for t in carrying if '&mut' in t or not re.match(r'^(\(\s*)?&', t) or
+                   re.search(r'(^|[(,]\s*)(std::vec::Vec<)?geo_types::(Polygon|MultiPolygon|LineString)<', t)]
+            ok = (len(carrying) >= 2 or stage.endswith('trivial_result')) and not bad
+            rep.ob('D-ref', stage, ok, '%s must take the operands by shared reference (&[Polygon<F>]), has %s' % (stage, carrying),
                    loc=b.loc(b.j['line_lo']))
 
     # D-freeze ---------------------------------------------------------------------------------
